@@ -5,6 +5,7 @@
    <tree>  = C then C nodes, node = N C then N*D values then C nodes.
    ENC  e D <paths>  -> array written by the bounds-checked model of CreateCPathsFromPathsT (ERR on overflow)
    ENCN e D <paths>  -> same for the D creators (NULL for an empty set)
+   ENCR e D <paths>  -> the documented layout as a caller builds it: every path an entry, empty ones as `0 0` (enc_paths_raw)
    DEC  e D <arr>    -> paths decoded by the checked model of ConvertCPathsToPathsT | NONE
    DECP e D <arr>    -> path decoded by the model of ConvertCPathToPathT | NONE
    ENCP e D <path>   -> the documented CPath layout
@@ -75,6 +76,8 @@ let handle t =
        | None -> "ERR overflow")
   | "ENCN" -> let i = inst_of (next t) in let d = next_int t in let ps = read_cpaths d t in
       (match enc_paths_d i.ofc Z0 (nat_of_int d) ps with None -> "NULL" | Some a -> show_arr a)
+  | "ENCR" -> let i = inst_of (next t) in let d = next_int t in let ps = read_cpaths d t in
+      show_arr (enc_paths_raw i.ofc Z0 ps)
   | "DEC" -> let i = inst_of (next t) in let d = next_int t in let a = read_arr t in
       (match dec_paths_opt i.toc (nat_of_int d) a with Some ps -> show_cpaths ps | None -> "NONE")
   | "DECP" -> let i = inst_of (next t) in let d = next_int t in let a = read_arr t in
